@@ -286,11 +286,23 @@ def schedule(jobs, pool, harness_dir, logdir):
     results = []
     lock = threading.Lock()
 
+    order = ['S', 'M', 'L', 'XL']
+
     def worker(h):
         r = run_job(h, pool, harness_dir, logdir)
+        cls = h.get('mem', 'S')
+        if r['status'] == 'inconclusive' and r.get('detail') == 'oom' and cls != 'XL' and not os.environ.get('VERIF_NO_ESCALATE'):
+            # memory class exhausted: one more attempt in the next class (never reported as pass or violation)
+            h2 = dict(h)
+            h2['mem'] = order[order.index(cls) + 1]
+            log('  [retry] %-44s %6.0fs %5.1fGB class %s exhausted -> %s' % (h['name'], r.get('wall_s', 0), r.get('peak_gb', 0), cls, h2['mem']))
+            with lock:
+                pending.append(h2)
+            return
+        r['mem_class'] = cls
         with lock:
             results.append(r)
-        log('  [%s] %-44s %6.0fs %5.1fGB %s' % (r['status'], h['name'], r.get('wall_s', 0), r.get('peak_gb', 0), r.get('detail', '')[:120]))
+        log('  [%s] %-44s %6.0fs %5.1fGB %s %s' % (r['status'], h['name'], r.get('wall_s', 0), r.get('peak_gb', 0), cls, r.get('detail', '')[:120]))
 
     while pending or running:
         running = [(t, h) for (t, h) in running if t.is_alive()]
